@@ -2,6 +2,7 @@ package rules
 
 import (
 	"go/token"
+	"go/types"
 	"strings"
 
 	"golang.org/x/tools/go/ssa"
@@ -21,7 +22,7 @@ func init() {
 func runC15(c *Ctx) {
 	r := c.R
 	r.Rule("R1-query-free-match", "the operand of every skip-auth regex match is query- and fragment-free on every path", 1)
-	r.Rule("R2-route-predicates", "method equality, both predicates on the same route, negate handling, rule construction", 7)
+	r.Rule("R2-route-predicates", "method equality, both predicates on the same route, negate handling, rule construction", 4)
 	r.Rule("R3-preflight", "preflight bypass needs the flag and OPTIONS (C01.R4)", 4)
 	r.Rule("R4-trusted-ip", "isTrustedIP true only as trustedIPs.Has(GetClientIP result), error-free and non-nil", 3)
 	r.Rule("R5-netset-agreement", "NetSet add/has key agreement, same-mask insertion, family selection, host-bit rejection", 7)
@@ -34,19 +35,27 @@ func runC15(c *Ctx) {
 	runRemoteIPRule(c, "R8-remote-address")
 
 	checkBypassOperand(c, "R1-query-free-match")
-	isAllowedPath := c.Fn("R2-route-predicates", "main.isAllowedPath")
 	pathRegexF := c.Field("R2-route-predicates", "main.allowedRoute.pathRegex")
-	_ = pathRegexF
 
 	// ---- R2 ---------------------------------------------------------------------------------
 	rule := "R2-route-predicates"
-	isAllowedMethod := c.Fn(rule, "main.isAllowedMethod")
+	// the two small predicates are analysed on their own when they exist as functions (today); when a refactoring has
+	// inlined them into isAllowedRoute, the combined rule below decides the same conditions on isAllowedRoute's paths
+	isAllowedMethod := c.P.Func("main.isAllowedMethod")
+	isAllowedPath := c.P.Func("main.isAllowedPath")
 	isAllowedRoute := c.Fn(rule, "(*main.OAuthProxy).isAllowedRoute")
+	if isAllowedMethod != nil && isAllowedPath != nil {
+		c.Fn(rule, "main.isAllowedMethod") // register as anchors: analysed separately, never inlined
+		c.Fn(rule, "main.isAllowedPath")
+	}
 	methodF := c.Field(rule, "main.allowedRoute.method")
 	negateF := c.Field(rule, "main.allowedRoute.negate")
 	routesF := c.Field(rule, "main.OAuthProxy.allowedRoutes")
 	reqMethodF := c.P.Field("net/http.Request.Method")
 	build := c.Fn(rule, "main.buildRoutesAllowlist")
+	if (isAllowedMethod == nil || isAllowedPath == nil) && isAllowedRoute != nil && methodF != nil && negateF != nil && pathRegexF != nil && reqMethodF != nil {
+		runC15R2Combined(c, rule, isAllowedRoute, methodF, negateF, pathRegexF, reqMethodF)
+	}
 	if isAllowedMethod != nil && isAllowedRoute != nil && isAllowedPath != nil && methodF != nil && negateF != nil && routesF != nil && reqMethodF != nil && build != nil {
 		c.Walk(rule, isAllowedMethod, func(p *walk.Path) {
 			rv, ok := p.ReturnDV(0)
@@ -150,6 +159,8 @@ func runC15(c *Ctx) {
 				c.bad(rule, key, p.Exit, "isAllowedPath does not return the regex verdict negated exactly when route.negate is set", p, p.End())
 			}
 		})
+	}
+	if methodF != nil && negateF != nil && build != nil {
 		// builder: method upper-cased; negate from "!="
 		up, neg := false, false
 		for _, b := range build.Blocks {
@@ -687,10 +698,9 @@ func runNetSetRule(c *Ctx, rule string) {
 
 // checkBypassOperand (C15.R1, also C01): the string matched by skip-auth rules is the guarded, query-free request path.
 func checkBypassOperand(c *Ctx, rule string) {
-	isAllowedPath := c.Fn(rule, "main.isAllowedPath")
 	pathRegexF := c.Field(rule, "main.allowedRoute.pathRegex")
 	getURI := c.Fn(rule, "pkg/requests/util.GetRequestURI")
-	if isAllowedPath != nil && pathRegexF != nil && getURI != nil {
+	if pathRegexF != nil && getURI != nil { // the match sites are found by the field they match on, wherever they live
 		// every MatchString on an allowedRoute.pathRegex in the program
 		n := 0
 		for _, fn := range c.P.ModFns {
@@ -950,6 +960,64 @@ func runRemoteIPRule(c *Ctx, rule string) {
 			c.ok(rule, key, p.Exit, "returns getRemoteIP(req)")
 		} else {
 			c.bad(rule, key, p.Exit, "without a parser GetClientIP does not return getRemoteIP(req)", p, at)
+		}
+	})
+}
+
+// runC15R2Combined decides C15.R2 on isAllowedRoute alone, for a tree in which isAllowedMethod/isAllowedPath no
+// longer exist as functions: every true return has (route.method == "" or req.Method == route.method) and a
+// MatchString verdict on route.pathRegex that differs from route.negate.
+func runC15R2Combined(c *Ctx, rule string, isAllowedRoute *ssa.Function, methodF, negateF, pathRegexF, reqMethodF *types.Var) {
+	c.Walk(rule, isAllowedRoute, func(p *walk.Path) {
+		rv, ok := p.ReturnDV(0)
+		if !ok {
+			return
+		}
+		if b, k := p.Truth(rv, p.End()); k && !b {
+			return
+		}
+		at := p.End()
+		key := "route-true|" + fnKey(isAllowedRoute)
+		isRouteMethod := func(x walk.DV) bool { return isFieldLoadOrValue(p.Resolve(x).V, methodF) }
+		methodOK := eqConstAtom(p, at, true, "", isRouteMethod) ||
+			eqAtom(p, at, true, func(x walk.DV) bool { return walk.IsFieldLoad(p.Resolve(x).V, reqMethodF) }, isRouteMethod)
+		// last regex verdict on the path and the negate flag assumed with it
+		var match *walk.Call
+		for _, cl := range p.Calls() {
+			cl := cl
+			if sc := cl.C.StaticCallee(); sc != nil && sc.Name() == "MatchString" && isFieldLoadOrValue(p.Resolve(p.Arg(cl, 0)).V, pathRegexF) {
+				match = &cl
+			}
+		}
+		if match == nil {
+			c.bad(rule, key, p.Exit, "isAllowedRoute returns true without matching a rule's regex", p, at)
+			return
+		}
+		verdict, vKnown := p.ResultTruth(match.DV(), -1, at)
+		neg, nKnown := false, false
+		for _, a := range p.Atoms(at) {
+			if !a.IsNil && a.Step >= 0 && isFieldLoadOrValue(p.Resolve(a.DV).V, negateF) {
+				neg, nKnown = a.Val, true
+			}
+		}
+		pathOK := vKnown && nKnown && verdict != neg
+		if !pathOK {
+			// the verdict may be the returned expression itself: return matches / return !matches
+			rr := p.Resolve(rv)
+			if nKnown && !neg && p.Same(rr, match.DV()) {
+				pathOK = true
+			}
+			if u, ok := rr.V.(*ssa.UnOp); ok && nKnown && neg && u.Op == token.NOT && p.Same(p.Op(u.X, rr), match.DV()) {
+				pathOK = true
+			}
+		}
+		switch {
+		case methodOK && pathOK:
+			c.ok(rule, key, p.Exit, "method empty or equal to req.Method; regex verdict negated exactly when route.negate")
+		case !methodOK:
+			c.bad(rule, key, p.Exit, "isAllowedRoute can return true without an empty rule method or equality with the request method", p, at)
+		default:
+			c.bad(rule, key, p.Exit, "isAllowedRoute can return true without the rule's regex verdict, negated exactly when route.negate is set", p, at)
 		}
 	})
 }
